@@ -38,6 +38,7 @@ def kString : Bytes := [0x73, 0x74, 0x72, 0x69, 0x6E, 0x67]
 def kInt32 : Bytes := [0x69, 0x6E, 0x74, 0x33, 0x32]
 def kInt64 : Bytes := [0x69, 0x6E, 0x74, 0x36, 0x34]
 def kBool : Bytes := [0x62, 0x6F, 0x6F, 0x6C]
+def kUint32 : Bytes := [0x75, 0x69, 0x6E, 0x74, 0x33, 0x32]
 def kMessage : Bytes := [0x6D, 0x65, 0x73, 0x73, 0x61, 0x67, 0x65]
 def kBytes : Bytes := [0x62, 0x79, 0x74, 0x65, 0x73]
 
@@ -47,7 +48,7 @@ def tNull : Bytes := [0x6E, 0x75, 0x6C, 0x6C]
 
 /-- `marshalFieldValue` of an unset singular field. -/
 def defaultText (f : FieldD) : Bytes :=
-  if f.kind == kInt32 || f.kind == kInt64 then [0x30] else if f.kind == kBool then tFalse else []
+  if f.kind == kInt32 || f.kind == kInt64 || f.kind == kUint32 then [0x30] else if f.kind == kBool then tFalse else []
 
 def isJsonSpace (c : UInt8) : Bool := c == 0x20 || c == 0x09 || c == 0x0A || c == 0x0D
 
@@ -106,6 +107,9 @@ def validText (f : FieldD) (text : Bytes) : Option Bytes :=
   if f.kind == kString then some text
   else if f.kind == kInt32 then (jsonInt (-2147483648) 2147483647 text).map intText
   else if f.kind == kInt64 then (jsonInt (-9223372036854775808) 9223372036854775807 text).map intText
+  else if f.kind == kUint32 then
+    -- an unsigned target takes no sign at all (`-0` is rejected), and nothing beyond 2^32-1
+    if (trimJson text).head? == some 0x2D then none else (jsonInt 0 4294967295 text).map intText
   else if f.kind == kBool then
     let t := trimJson text
     if t == tTrue then some tTrue else if t == tFalse then some tFalse else none
